@@ -88,6 +88,8 @@ class ConvertMonitor:
         ctx = self.ctx
         quantity, other_unit = a[0], a[1]
         self.last = None
+        if getattr(self, "paused", False):
+            return   # a section that declares units of its own (outside the declaration log) and judges its conversions itself
         if exc is not None:
             ctx.count(f"convert/raised/{type(exc).__name__}")
             return
